@@ -411,8 +411,27 @@ func (x *Exec) compositeLit(e *ast.CompositeLit, st *State) Val {
 		st.heaps[hn] = Store(h, reg, arr)
 		return Val{T: mkSlice(reg, IntLit(0), IntLit(n), IntLit(n)), Ty: ty}
 	case TOpaque:
-		if mt, ok := ty.Go.Underlying().(*types.Map); ok && len(e.Elts) == 0 {
-			return x.newMap(st, ty, mt)
+		if mt, ok := ty.Go.Underlying().(*types.Map); ok {
+			m := x.newMap(st, ty, mt)
+			kty := x.w.goTy(mt.Key(), x.model.BV)
+			vty := x.w.goTy(mt.Elem(), x.model.BV)
+			for _, el := range e.Elts {
+				kv, isKV := el.(*ast.KeyValueExpr)
+				if !isKV {
+					x.unsupported(e, "map literal element without a key")
+				}
+				var k, v Val
+				if cl, isLit := kv.Key.(*ast.CompositeLit); isLit && cl.Type == nil {
+					x.unsupported(e, "map literal with elided key type")
+				}
+				k = x.expr(kv.Key, st)
+				if cl, isLit := kv.Value.(*ast.CompositeLit); isLit && cl.Type == nil {
+					x.unsupported(e, "map literal with elided value type")
+				}
+				v = x.expr(kv.Value, st)
+				x.mapSet(st, m, Val{T: x.coerceTo(k, kty), Ty: kty}, Val{T: x.coerceTo(v, vty), Ty: vty}, mt)
+			}
+			return m
 		}
 	}
 	x.unsupported(e, "unsupported composite literal")
